@@ -205,7 +205,12 @@ class AsyncSimpleClient:
         Note: this method is a coroutine.
         """
         if self.connected:
-            await self.client.disconnect()
+            if self.client.connected:
+                await self.client.disconnect()
+            else:
+                # the connection is down at the moment: the reconnection
+                # that is in progress is ended
+                await self.client.shutdown()
             self.client = None
             self.connected = False
 
